@@ -12,14 +12,15 @@ set_option maxRecDepth 100000 in
 set_option maxHeartbeats 2000000 in
 /-- **`CalculateSMid` of `openAsm`** (instructions 1499 … 1645): the GHASH of the ciphertext (the input without its last `t` bytes)
     continues the GHASH of the additional data -/
-theorem open_sMid (s5 : State) (pc : PCtx s5) (h : Nat) (gh : GhCtx h s5) (rk dst nonce ct aad : List Nat) (t : Nat)
-    (b5 : List Nat) (hb5 : b5.length = 32) (hm5 : s5.mem = fmem "cipher" false rk dst nonce ct aad b5)
-    (fC : lookup s5.frame "cipher" = some 85899345920) (fCl : lookup s5.frame "cipherLen" = some ct.length)
+theorem open_sMid (s5 : State) (pc : PCtx s5) (h : Nat) (gh : GhCtx h s5) (rk dst nonce inp ct aad : List Nat) (cp : Nat) (t : Nat)
+    (b5 : List Nat) (hb5 : b5.length = 32) (hm5 : s5.mem = fmem "cipher" false rk dst nonce inp aad b5)
+    (fC : lookup s5.frame "cipher" = some cp) (fCl : lookup s5.frame "cipherLen" = some ct.length)
     (fTs : lookup s5.frame "tagSize" = some t) (fTmp : lookup s5.frame "tmp" = some 94489280512)
     (hrk : rk.length = 32) (hnl : nonce.length < 2 ^ 32) (hal : aad.length < 2 ^ 32)
-    (ht : t ≤ ct.length) (hcl : ct.length < 2 ^ 32) (hcb : ∀ x ∈ ct, x < 2 ^ 8) (y0 : Nat) (hy0 : vreg s5 21 = y0) (hy0lt : y0 < 2 ^ 128) :
+    (ht : t ≤ ct.length) (hcl : ct.length < 2 ^ 32) (hcb : ∀ x ∈ ct, x < 2 ^ 8)
+    (hct : ∀ b, b.length = 32 → DataAt (fmem "cipher" false rk dst nonce inp aad b) cp ct) (hcp : cp + ct.length < 2 ^ 63) (y0 : Nat) (hy0 : vreg s5 21 = y0) (hy0lt : y0 < 2 ^ 128) :
     ∃ s6 N b6, N ≤ 34 * ((ct.length - t) / 16) + 160 ∧ Reach openR 1499 s5 1646 s6 N ∧
-      s6.mem = fmem "cipher" false rk dst nonce ct aad b6 ∧ b6.length = 32 ∧ PCtx s6 ∧ GhCtx h s6 ∧
+      s6.mem = fmem "cipher" false rk dst nonce inp aad b6 ∧ b6.length = 32 ∧ PCtx s6 ∧ GhCtx h s6 ∧
       vreg s6 21 = ghUpdN h y0 (ct.take (ct.length - t)) ∧ vreg s6 21 < 2 ^ 128 ∧
       KeepsM [0, 3, 4, 5, 7, 8, 13, 15] (bodyKeepV 21) (List.range 8) s5 s6 := by
   have os := open_slices'
@@ -30,7 +31,7 @@ theorem open_sMid (s5 : State) (pc : PCtx s5) (h : Nat) (gh : GhCtx h s5) (rk ds
   have hCl : C.length = nC := by show (ct.take nC).length = nC; rw [List.length_take]; omega
   have hCb : ∀ x ∈ C, x < 2 ^ 8 := fun x hx => hcb x (List.mem_of_mem_take hx)
   -- the arguments
-  let a1 := setGreg s5 10 85899345920
+  let a1 := setGreg s5 10 cp
   let a2 := setGreg a1 9 ct.length
   let a3 := setGreg a2 14 t
   have hG3 : a3.gpr.length = 16 := by simp [a3, a2, a1, hG]
@@ -59,7 +60,7 @@ theorem open_sMid (s5 : State) (pc : PCtx s5) (h : Nat) (gh : GhCtx h s5) (rk ds
     rw [greg_setGreg_ne a4 6 _ 9 (by decide)]
     show greg (setFlags (setGreg a3 9 _) _) 9 = _
     rw [greg_setFlags, greg_setGreg_eq a3 9 _ (by omega)]
-  have g510 : greg a5 10 = 85899345920 := by
+  have g510 : greg a5 10 = cp := by
     show greg (setGreg a4 6 _) 10 = _
     rw [greg_setGreg_ne a4 6 _ 10 (by decide)]
     show greg (setFlags (setGreg a3 9 _) _) 10 = _
@@ -125,13 +126,13 @@ theorem open_sMid (s5 : State) (pc : PCtx s5) (h : Nat) (gh : GhCtx h s5) (rk ds
     rw [greg_setFlags, greg_setFlags, greg_setGreg_ne sb4 12 _ 11 (by decide)]
     show greg (setFlags (setGreg sb3 11 _) _) 11 = _
     rw [greg_setFlags, greg_setGreg_eq sb3 11 _ (by omega)]
-  have b10 : greg sb6 10 = 85899345920 := by rw [kb.g 10 (by decide)]; exact g510
+  have b10 : greg sb6 10 = cp := by rw [kb.g 10 (by decide)]; exact g510
   have b6 : greg sb6 6 = 94489280512 := by rw [kb.g 6 (by decide)]; exact g56
   have b21 : vreg sb6 21 = y0 := by rw [kb.v 21 (by decide), ka.v 21 (by decide)]; exact hy0
-  have hmb : sb6.mem = fmem "cipher" false rk dst nonce ct aad b5 := by rw [kb.mem, ka.mem]; exact hm5
-  have hdC : DataAt sb6.mem 85899345920 C := by
+  have hmb : sb6.mem = fmem "cipher" false rk dst nonce inp aad b5 := by rw [kb.mem, ka.mem]; exact hm5
+  have hdC : DataAt sb6.mem cp C := by
     rw [hmb]
-    exact DataAt.take (fun off n hn => fmem_read_inp "cipher" false rk dst nonce ct aad b5 off n hn (by omega)) nC
+    exact DataAt.take (hct b5 hb5) nC
   -- JL toRemain
   have hcnd : Model.ISAVal.cond .JLT sb6.flags = .ok (decide (nC < 16)) := cond_jlt nC 16 (by omega) (by decide)
   have rj := reach_jcc (r := openR) (k := 1504 + 5) (idx := 1578) sJ rfl (label_findPc open_labels (name := "SMid.toRemain") (by decide)) hcnd
@@ -140,7 +141,7 @@ theorem open_sMid (s5 : State) (pc : PCtx s5) (h : Nat) (gh : GhCtx h s5) (rk ds
   -- the whole blocks
   obtain ⟨sc, N1, hN1, rc, gcc, v21, lt21, g10c, m_c, kc⟩ : ∃ sc N1, N1 ≤ 34 * (nC / 16) + 5 ∧ Reach openR (1504 + 5) sb6 1578 sc N1 ∧
       GhCtx h sc ∧ vreg sc 21 = (if nC < 16 then y0 else ghAllN h (nC / 16) y0 C) ∧ vreg sc 21 < 2 ^ 128 ∧
-      greg sc 10 = 85899345920 + 16 * (nC / 16) ∧ sc.mem = sb6.mem ∧
+      greg sc 10 = cp + 16 * (nC / 16) ∧ sc.mem = sb6.mem ∧
       Keeps [0, 3, 4, 5, 6, 7, 8, 11, 13, 15] (bodyKeepV 21) (List.range 8) sb6 sc := by
     by_cases hlt : nC < 16
     · simp only [hlt, decide_true, if_true] at rj
@@ -148,18 +149,18 @@ theorem open_sMid (s5 : State) (pc : PCtx s5) (h : Nat) (gh : GhCtx h s5) (rk ds
     · simp only [hlt, decide_false, Bool.false_eq_true, if_false] at rj
       obtain ⟨sc, N, hN, rc, gcc, v21, lt21, g8c, kc⟩ := ghLoops_reach openR 1510 10 12 21 8913 9133 9314 (Or.inr (Or.inr ⟨rfl, rfl, rfl⟩))
         os.loops (label_findPc open_labels (name := "SMid.loop4") (by decide)) (label_findPc open_labels (name := "SMid.loop1") (by decide))
-        (label_findPc open_labels (name := "SMid.toRemain") (by decide)) h (nC / 16) sb6 85899345920 y0 C gb
+        (label_findPc open_labels (name := "SMid.toRemain") (by decide)) h (nC / 16) sb6 cp y0 C gb
         b10 b12 b21 hy0lt (by omega) (by omega) (by omega) (by omega) hCb hdC
       refine ⟨sc, 1 + N, by omega, (rj.trans rc).cast rfl rfl, gcc, by rw [v21, if_neg hlt], lt21, g8c, kc.mem,
         kc.mono (by decide) (fun _ h => h) (fun _ h => h)⟩
   -- the remainder
-  have mf := memFam_fmem "cipher" false rk dst nonce ct aad hrk hnl hal
+  have mf := memFam_fmem "cipher" false rk dst nonce inp aad hrk hnl hal
   obtain ⟨s6, N2, b6', hN2, r2, m6, hb6, g6, v6, lt6, _, k6⟩ := rem_reach openR 1578 10 9626 9342 9368 9393 9420 9445 (Or.inr rfl) os.rem
     (label_findPc open_labels (name := "postArgs") (by decide)) (label_findPc open_labels (name := "SMid.copy8") (by decide))
     (label_findPc open_labels (name := "SMid.copy4") (by decide)) (label_findPc open_labels (name := "SMid.copy2") (by decide))
     (label_findPc open_labels (name := "SMid.copy1") (by decide)) (label_findPc open_labels (name := "SMid.copyEnd") (by decide))
-    (fun b => fmem "cipher" false rk dst nonce ct aad b) 94489280512 mf.buf C 85899345920
-    (fun b hb => DataAt.take (fun off n hn => fmem_read_inp "cipher" false rk dst nonce ct aad b off n hn (by omega)) nC) hCb (by decide)
+    (fun b => fmem "cipher" false rk dst nonce inp aad b) 94489280512 mf.buf C cp
+    (fun b hb => DataAt.take (hct b hb) nC) hCb (by decide)
     (by omega) h sc b5 (16 * (nC / 16)) 0 (nC % 16) _ (Or.inl rfl) gcc hb5 (by rw [m_c]; exact hmb)
     (by rw [kc.g 11 (by decide)]; exact b11) (by omega) g10c (by rw [kc.g 6 (by decide)]; exact b6) (by omega) rfl lt21
   have kAll : KeepsM [0, 3, 4, 5, 7, 8, 13, 15] (bodyKeepV 21) (List.range 8) s5 s6 :=
